@@ -72,7 +72,13 @@ func readerRules(which ...string) []RuleDef {
 func init() {
 	register(&PropDef{
 		ID: "C09", Title: "I/O faults never hang and are never swallowed by the BGZF reader or writer", Level: "other",
-		Rules: append(writerRules("W1", "W2", "W3", "W5", "W7", "W8", "W9", "PATH-WAIT", "W6"), readerRules("R1", "R2", "R3", "R4", "R5", "R6")...),
+		Rules: append(append(writerRules("W1", "W2", "W3", "W5", "W7", "W8", "W9", "PATH-WAIT", "W6"), readerRules("R1", "R2", "R3", "R4", "R5", "R6")...),
+			RuleDef{Name: "ERR-1", What: "no error returned by a call in package bgzf is dropped (exemptions named)", Floor: 40, Run: ruleNoDroppedError([]string{"bgzf"}, errExempt)},
+			RuleDef{Name: "PATH-NEXTBLOCK", What: "a read-ahead result (error included) is reported only for the block whose base was expected", Floor: 1, Run: ruleNextBlock},
+			RuleDef{Name: "LOCK-2", What: "the writer's error latch and the reader's cache field are accessed under their mutex (Close after wg.Wait exempt, structurally re-checked)", Floor: 8,
+				Run: func(c *Ctx, r *Rep, tier string) {
+					newLockAnalysis(c, []string{"bgzf"}).ruleGuarded(r, "LOCK-2", buildLockCfg(c, "bgzf"))
+				}}),
 		Explanation: "Necessary conditions of \"every call returns and the failure is reported\" that are path properties of the goroutine protocol, decided for every fault position and schedule at once: W1–W3/W8 every queued compressor is compressed, consumed, Done and returned to the pool exactly once and the emitter drains the queue until it is closed (a stranded compressor or a missing Done blocks Write/Flush+Wait/Close for ever); W5/W7/PATH-WAIT errors are latched before a compressor is released or Done is signalled and no API call returns a constant nil without consulting the latch; W9 nothing is written after a failed block; W6 Close's shutdown order; R1/R2 the reader's head token and per-decompressor wait group are balanced on every path of every entry point; R3–R5 the read-ahead goroutine's hand-offs, Seek's hand-back and Close's shutdown.",
 		NotDecided:  "global deadlock freedom (needs a model of channel capacities and interleavings), goroutine leaks beyond R3/R5, that the reader's error is the right one for the position.",
 		Assumptions: []string{"loops unrolled at most twice per path when counting effects", "static callees summarised to depth 4"},
